@@ -292,3 +292,15 @@ Theorem C06_sub_partial : forall next (t u r : pt) next' x idx,
   denote xval r idx = xsub (denote xval t idx) (denote xval u idx).
 Proof. exact sub_refines. Qed.
 Print Assumptions C06_sub_partial.
+
+(** F22: a NaN default is dropped by relu_ (Python max(0, nan) = 0) and by maximum (Python max(x, nan) = x);
+    the positive statements are C06_unary_ops / C06_maximum_partial under their NaN guards *)
+Theorem C06_relu_nan_default_refuted :
+  exists r, model_op 12 [] [] [t_nan] 2 = Ok r /\
+            denote xval r [0; 1] = XF 0 /\ xrelu (denote xval t_nan [0; 1]) = XNaN.
+Proof. exact relu_nan_default_refuted. Qed.
+Print Assumptions C06_relu_nan_default_refuted.
+
+Theorem C06_maximum_nan_default_refuted : py_max (XF 1) XNaN = XF 1 /\ xmax (XF 1) XNaN = XNaN.
+Proof. exact maximum_nan_default_refuted. Qed.
+Print Assumptions C06_maximum_nan_default_refuted.
